@@ -16,7 +16,12 @@
 #ifndef TSET
 #define TSET 0
 #endif
-#ifdef WIDE
+#ifdef MB	/* characters of every encoded length and with every kind of lead byte: U+00E9 (c3), U+0628 (d8), U+4E2D (e4), U+1F600 (f0) */
+#define PHCLS (SL_ASCII | SL_2B | SL_AR1 | SL_3B)
+#define PHSET "a"
+#define LNCLS (SL_ASCII | SL_2B | SL_AR1 | SL_3B | SL_4B)
+#define LNSET "a1"
+#elif defined(WIDE)
 #define PHCLS (SL_ASCII | SL_2B | SL_2BU)
 #define PHSET "abA1_"
 #define LNCLS (SL_ASCII | SL_2B | SL_2BU)
@@ -30,7 +35,8 @@
 static const char *T0[] = {	/* literals, any, anchors, word boundaries */
 	"x", "xy", "x.y", ".x", "^x", "x$", "^x$", "^", "$", "\\<x", "x\\>", "\\<xy\\>", "x\\>y", ".\\<x", "^.x", "x.$", NULL};
 static const char *T1[] = {	/* brackets */
-	"[xy]", "[^x]", "[x-y]z", "[^x-y]", "x[[:digit:]]", "[[:alpha:]]x", "[^[:space:]x]", "[xy][^z]", "[]x]", "[^]x]y", "[x-]", NULL};
+	"[xy]", "[^x]", "[x-y]z", "[^x-y]", "x[[:digit:]]", "[[:alpha:]]x", "[^[:space:]x]", "[xy][^z]", "[]x]", "[^]x]y", "[x-]",
+	"[^](]x", "[^][](x)", "[(]x(y)", "[^[:digit:]](x)", NULL};
 static const char *T2[] = {	/* quantifiers */
 	"x*", "x*y", "x+", "x+y", "x?y", "xy?", "x{2}", "x{1,2}y", "x{2,}", "x{0,1}y", ".*x", ".+x", "x.*y", "[xy]*z", "[^x]+y", "x*x", "x+x", ".*", "x{0}y", NULL};
 static const char *T3[] = {	/* groups and alternation */
